@@ -15,6 +15,7 @@ pub enum Effect {
     Drew { pkt: u32, sizes: Seq<i32> },      // padding sizes drawn for session packet `pkt`
     HeartbeatSeen,                           // last_received refreshed
     ClockRead { t: u64 },                    // Instant::now() returned t
+    TimedWait,                               // an awaited operation ran under time::timeout (a bounded wait)
     DefaultSet { raw: Seq<u8> },              // PaddingFactory::update_default(raw) succeeded: raw is the process-wide default from now on
     Submit { frame: FrameS },                // ghost bookkeeping: a frame accepted by write_frame (its wire effect is write_frame's own postcondition)
 }
@@ -196,12 +197,16 @@ impl Clone for Instant { #[verifier::external_body] fn clone(&self) -> (r: Self)
 impl Copy for Instant {}
 impl Duration {
     pub fn vx_gt(&self, o: &Duration) -> (r: bool) ensures r == (self.ms > o.ms) { self.ms > o.ms }
+    pub fn as_secs(&self) -> (r: u64) ensures r == self.ms / 1000 { self.ms / 1000 }
+    pub fn as_millis(&self) -> (r: u128) ensures r == self.ms { self.ms as u128 }
 }
 pub mod time {
     use super::*;
     // time::timeout(d, fut): after async erasure the awaited operation has run to completion; the timer may still fire
     #[verifier::external_body]
-    pub fn timeout<T>(d: Duration, x: T) -> (r: std::result::Result<T, Elapsed>) ensures r is Ok ==> r->Ok_0 == x { unimplemented!() }
+    pub fn timeout<T>(d: Duration, x: T, fx: &mut Ghost<Seq<Effect>>) -> (r: std::result::Result<T, Elapsed>)
+        ensures r is Ok ==> r->Ok_0 == x, final(fx)@ == old(fx)@.push(Effect::TimedWait)
+    { unimplemented!() }
 }
 
 pub struct StringMap { pub _m: HashMap<String, String> }
@@ -360,7 +365,12 @@ pub open spec fn submitted(fx: Seq<Effect>) -> Seq<FrameS> decreases fx.len()
 pub broadcast proof fn lemma_submitted_push(fx: Seq<Effect>, e: Effect)
     ensures #[trigger] submitted(fx.push(e)) == (match e { Effect::Submit { frame } => submitted(fx).push(frame), _ => submitted(fx) })
 { assert(fx.push(e).drop_last() =~= fx); assert(fx.push(e).last() == e); }
-pub broadcast group group_proj { lemma_closed_push, lemma_failed_push, lemma_waiters_push, lemma_shutdown_push, lemma_deliveries_push, lemma_submitted_push, lemma_current_default_push }
+pub open spec fn n_timed(fx: Seq<Effect>) -> nat decreases fx.len()
+{ if fx.len() == 0 { 0 } else { n_timed(fx.drop_last()) + (if fx.last() is TimedWait { 1nat } else { 0nat }) } }
+pub broadcast proof fn lemma_timed_push(fx: Seq<Effect>, e: Effect)
+    ensures #[trigger] n_timed(fx.push(e)) == n_timed(fx) + (if e is TimedWait { 1nat } else { 0nat })
+{ assert(fx.push(e).drop_last() =~= fx); assert(fx.push(e).last() == e); }
+pub broadcast group group_proj { lemma_timed_push, lemma_closed_push, lemma_failed_push, lemma_waiters_push, lemma_shutdown_push, lemma_deliveries_push, lemma_submitted_push, lemma_current_default_push }
 // module paths as written in the source
 pub mod tokio { pub mod sync { pub use super::super::oneshot; pub use super::super::mpsc; pub use super::super::tsync::Mutex; } pub mod time { pub use super::super::time::*; pub use super::super::Duration; pub use super::super::Instant; } }
 
@@ -374,6 +384,15 @@ pub proof fn lemma_dispatch_prefix(dl0: Seq<FrameS>, disp: Seq<FrameS>, rest: Se
     assert(disp =~= all.subrange(0, disp.len() as int));
     if rest.len() == 0 { assert(disp =~= all); }
 }
+
+// the same as an automatic fact (no hint at the exits of recv_loop needed): whenever the terms dl0 + disp and disp + rest exist
+pub broadcast proof fn lemma_dispatch_prefix_auto(dl0: Seq<FrameS>, disp: Seq<FrameS>, rest: Seq<FrameS>)
+    ensures
+        #![trigger (dl0 + disp), (disp + rest)]
+        (dl0 + disp).len() >= dl0.len(), (dl0 + disp).subrange(0, dl0.len() as int) == dl0,
+        (dl0 + disp).subrange(dl0.len() as int, (dl0 + disp).len() as int).is_prefix_of(disp + rest),
+        rest.len() == 0 ==> (dl0 + disp) == dl0 + (disp + rest)
+{ lemma_dispatch_prefix(dl0, disp, rest, disp + rest, dl0 + disp); }
 
 // everything a sequence of (stream id, chunk) items becomes on the write path, in order
 pub open spec fn psh_all(items: Seq<(u32, Seq<u8>)>) -> Seq<FrameS> decreases items.len()
